@@ -11,8 +11,11 @@ CONSTANTS
   AllowExtClose = TRUE
   MaxUnsolicited = 100000
   MaxAnswers = 1
+  HBReq <- TraceHB
+  HBMaxFail = 5
+  TimeoutLimit <- TraceTimeoutLimit
   Mut = "none"
-INVARIANTS NotAccepted NoMisroute NoReuseWhileOutstanding UniqueHold NoDupRefusal OutcomeAllowed ReleaseOnce Conservation NoLeak
+INVARIANTS NotAccepted HBCloseJustified TimeoutCloseJustified NoMisroute NoReuseWhileOutstanding UniqueHold NoDupRefusal OutcomeAllowed ReleaseOnce Conservation NoLeak
 CONSTRAINT Mark
 CONSTRAINT DriftMark
 POSTCONDITION PrintMark
